@@ -149,6 +149,13 @@ def run_tlc(prop, module, cfg, workers=8, timeout=600, emit_to=None, extra_env=N
         with subprocess.Popen(cmd, cwd=wd, env=env, stdout=subprocess.PIPE, stderr=subprocess.STDOUT, text=True,
                               errors="replace") as p, open(outpath, "w") as rawout:
             casef = open(emit_to, "w") if emit_to else None
+            # the time limit must not depend on TLC printing something: a TLC stuck in one evaluation (e.g. an eagerly
+            # evaluated constant definition) is silent
+            import threading
+            timed_out = []
+            watchdog = threading.Timer(timeout, lambda: (timed_out.append(True), p.kill()))
+            watchdog.daemon = True
+            watchdog.start()
             try:
                 for line in p.stdout:
                     if time.time() - t0 > timeout:
@@ -173,10 +180,13 @@ def run_tlc(prop, module, cfg, workers=8, timeout=600, emit_to=None, extra_env=N
                     if "Model checking completed" in line or "Finished in" in line:
                         finished = True
             finally:
+                watchdog.cancel()
                 if casef:
                     casef.close()
             p.wait()
             rc = p.returncode
+            if timed_out:
+                raise ToolError("TLC timeout after %ss on %s" % (timeout, cfg))
     finally:
         subprocess.run(["rm", "-rf", md])
     out = "".join(tail)
